@@ -67,6 +67,7 @@ type suggestion struct {
 	TypeBefore   string `json:"typeBefore,omitempty"`
 	TypeAfter    string `json:"typeAfter,omitempty"`
 	PosInRange   bool   `json:"posInRange"` // the reported position lies inside the replaced range
+	SameAfter    bool   `json:"sameAfter"`  // re-analysis reports the same text at the same place (before the nested-construct allowance)
 	StillThere   bool   `json:"stillThere"` // re-analysis reports the same diagnostic at the same place
 	MarkersLost  int    `json:"markersLost"`
 }
@@ -471,6 +472,7 @@ func evaluate(s *suggestion, fset *token.FileSet, p *packages.Package, f *ast.Fi
 			}
 			// the same text at the same place although the number of diagnostics did not go down
 			// (a nested construct may legitimately take the place and the text of the repaired one)
+			s.SameAfter = same
 			s.StillThere = same && len(after) >= totalBefore
 		}()
 	}
